@@ -1,5 +1,5 @@
 (* Proofs/CsvBook.v — reading the rows of a written CSV workbook gives back its sheets: names, header rows and cell-for-cell data *)
-Require Import PX.Base.Str PX.Base.PyStr PX.Model.Warnings PX.Gen.Warn PX.Spec.Csv PX.Model.Choices PX.Proofs.Choices PX.Model.CsvBook.
+Require Import PX.Base.Str PX.Base.PyStr PX.Model.Warnings PX.Gen.Warn PX.Spec.Csv PX.Model.Choices PX.Proofs.Choices PX.Model.Backends PX.Gen.Backends PX.Model.CsvBook.
 From Coq Require Import Lia.
 Local Open Scope N_scope.
 
@@ -32,13 +32,13 @@ Qed.
 Record sheetdef := { sname : str; shead : list str; sgrid : list (list str) }.
 Definition stripped (c : str) : Prop := py_strip c = c.
 Definition sheet_ok (d : sheetdef) : Prop :=
-  nonempty (sname d) = true /\ mem (sname d) SUPPORTED_SHEET_NAMES = true /\ lower_ascii (sname d) = sname d /\
-  shead d <> [] /\ Forall (fun h => nonempty h = true /\ stripped h) (shead d) /\ NoDup (shead d) /\
+  nonempty (sname d) = true /\ mem (sname d) SUPPORTED_SHEET_NAMES = true /\ lower_ascii (sname d) = sname d /\ stripped (sname d) /\
+  shead d <> [] /\ Forall (fun h => nonempty h = true /\ stripped h /\ collapse_spaces h = h) (shead d) /\ NoDup (shead d) /\
   Forall (fun cs => cs <> [] /\ Forall stripped cs) (sgrid d).
 Definition sheet_rows (d : sheetdef) : list (list str) := [sname d] :: ([] :: shead d) :: map (fun cs => [] :: cs) (sgrid d).
 Definition has_content (cs : list str) : bool := existsb nonempty cs.
 (* a blank row of the grid is kept as an empty row (so that row numbers are those of the table); below the last row blank rows are dropped *)
-Definition row_of (hs cs : list str) : dictrow := if has_content cs then zip_filled hs cs else [].
+Definition row_of (hs cs : list str) : dictrow := if has_content cs then zip_filled (map Some hs) cs else [].
 Definition raw_rows (d : sheetdef) : list dictrow := map (row_of (shead d)) (sgrid d).
 Definition data_rows (d : sheetdef) : list dictrow := trim_rows (raw_rows d).
 Definition entries (d : sheetdef) : book := [(sname d, VRows (raw_rows d)); (header_key (sname d), VHeader (shead d))].
@@ -57,36 +57,59 @@ Proof.
   rewrite E. f_equal. apply IH; [exact Hr|]. intros y Hy [<-|Hin]; [exact (Hx Hy)|]. exact (Hs y (or_intror Hy) Hin).
 Qed.
 
-Definition init : st := {| bk := [(k_sheet_names, VNames [])]; sheet := None; headers := None |}.
+(* a header row of distinct, clean, non-empty names passes get_excel_column_headers unchanged *)
+Lemma hdr_loop_good max : forall hs acc,
+  Forall (fun h => nonempty h = true /\ clean_header py_strip h = h) hs -> NoDup hs -> (forall h, In h hs -> ~ In (Some h) acc) ->
+  hdr_loop py_strip max (map opt_cell hs) acc 0 = Ok (acc ++ map Some hs, 0%nat).
+Proof.
+  induction hs as [|h hs IH]; intros acc Hf Hnd Hacc; cbn [map hdr_loop]; [rewrite app_nil_r; reflexivity|].
+  inversion Hf as [|? ? [Hne Hcl] Hrest]; subst. inversion Hnd as [|? ? Hx Hr]; subst.
+  unfold opt_cell at 1. rewrite Hne.
+  assert (E : existsb (fun x => match x with Some y => seqb y h | None => false end) acc = false).
+  { destruct (existsb _ acc) eqn:Ex; [|reflexivity]. apply existsb_exists in Ex as [[y|] [Hy Ey]]; [|discriminate].
+    apply seqb_eq in Ey. subst y. exfalso. exact (Hacc h (or_introl eq_refl) Hy). }
+  rewrite E, Hcl. rewrite (IH (acc ++ [Some h]) Hrest Hr).
+  - rewrite <- app_assoc. reflexivity.
+  - intros h' Hh' Hin. apply in_app_or in Hin as [Hin|[Hin|[]]]; [exact (Hacc h' (or_intror Hh') Hin)|]. injection Hin as ->. exact (Hx Hh').
+Qed.
+Lemma headers_good max hs : Forall (fun h => nonempty h = true /\ clean_header py_strip h = h) hs -> NoDup hs ->
+  get_excel_column_headers py_strip max (map opt_cell hs) = Ok (map Some hs).
+Proof. intros Hf Hnd. unfold get_excel_column_headers. rewrite (hdr_loop_good max hs [] Hf Hnd) by (intros ? _ []). reflexivity. Qed.
+Lemma somes_map_Some l : somes (map Some l) = l.
+Proof. induction l as [|x r IH]; [reflexivity|]. cbn. f_equal. exact IH. Qed.
+
+Definition init : st := init_st.
 (* the state after the sheets W1: names noted, every sheet's two entries in place *)
 Definition Inv (W1 : list sheetdef) (s : st) : Prop :=
-  bk s = (k_sheet_names, VNames (map sname W1)) :: flat_map entries W1.
+  bk s = (k_sheet_names, VNames (map sname W1)) :: flat_map entries W1 /\ err s = None.
 
 Lemma keys_entries W : keys (flat_map entries W) = flat_map (fun d => [sname d; header_key (sname d)]) W.
 Proof. induction W as [|d r IH]; [reflexivity|]. cbn [flat_map entries app keys map fst]. f_equal. f_equal. exact IH. Qed.
 
-Lemma fold_data : forall grid s n hs pre rows post, Forall (fun cs => cs <> [] /\ Forall stripped cs) grid ->
-  sheet s = Some n -> headers s = Some hs -> mem n SUPPORTED_SHEET_NAMES = true ->
+Lemma fold_data oo : forall grid s n hs pre rows post, Forall (fun cs => cs <> [] /\ Forall stripped cs) grid ->
+  sheet s = Some n -> headers s = Some (map Some hs) -> err s = None -> mem n SUPPORTED_SHEET_NAMES = true ->
   bk s = pre ++ (n, VRows rows) :: post -> ~ In n (keys pre) ->
-  let s' := fold_left (step lower_ascii) (map (fun cs => [] :: cs) grid) s in
-  bk s' = pre ++ (n, VRows (rows ++ map (row_of hs) grid)) :: post /\ sheet s' = Some n /\ headers s' = Some hs.
+  let s' := fold_left (step lower_ascii oo) (map (fun cs => [] :: cs) grid) s in
+  bk s' = pre ++ (n, VRows (rows ++ map (row_of hs) grid)) :: post /\ sheet s' = Some n /\ headers s' = Some (map Some hs) /\ err s' = None.
 Proof.
-  induction grid as [|cs grid IH]; intros s n hs pre rows post Hg Hn Hh Hsup Hb Hk; cbn [map fold_left].
+  induction grid as [|cs grid IH]; intros s n hs pre rows post Hg Hn Hh He Hsup Hb Hk; cbn [map fold_left].
   - rewrite app_nil_r. repeat split; assumption.
   - inversion Hg as [|? ? Hcs Hrest]; subst.
-    assert (Est : step lower_ascii s ([] :: cs) = {| bk := pre ++ (n, VRows (rows ++ [row_of hs cs])) :: post; sheet := Some n; headers := Some hs |}).
-    { destruct Hcs as [Hcne Hcs]. unfold step, row_of. rewrite (first_col_data cs Hcne Hcs). destruct (has_content cs).
+    assert (Est : step lower_ascii oo s ([] :: cs) =
+                  {| bk := pre ++ (n, VRows (rows ++ [row_of hs cs])) :: post; sheet := Some n; headers := Some (map Some hs); err := None |}).
+    { destruct Hcs as [Hcne Hcs]. unfold step, row_of. rewrite He. rewrite (first_col_data cs Hcne Hcs). destruct (has_content cs).
       - rewrite Hn, Hsup, Hh, Hb, (bget_mid pre n _ post Hk), (bput_mid pre n _ _ post Hk). reflexivity.
       - destruct cs as [|c r]; [congruence|]. rewrite Hn, Hh, Hsup, Hb, (bget_mid pre n _ post Hk), (bput_mid pre n _ _ post Hk). reflexivity. }
     rewrite Est.
-    specialize (IH {| bk := pre ++ (n, VRows (rows ++ [row_of hs cs])) :: post; sheet := Some n; headers := Some hs |} n hs pre (rows ++ [row_of hs cs]) post Hrest eq_refl eq_refl Hsup eq_refl Hk).
+    specialize (IH {| bk := pre ++ (n, VRows (rows ++ [row_of hs cs])) :: post; sheet := Some n; headers := Some (map Some hs); err := None |}
+                   n hs pre (rows ++ [row_of hs cs]) post Hrest eq_refl eq_refl eq_refl Hsup eq_refl Hk).
     cbn zeta in IH. rewrite <- app_assoc in IH. exact IH.
 Qed.
 
-Lemma process_sheet W1 d s : NoDup (all_keys (W1 ++ [d])) -> sheet_ok d -> Inv W1 s ->
-  Inv (W1 ++ [d]) (fold_left (step lower_ascii) (sheet_rows d) s).
+Lemma process_sheet oo W1 d s : NoDup (all_keys (W1 ++ [d])) -> sheet_ok d -> Inv W1 s ->
+  Inv (W1 ++ [d]) (fold_left (step lower_ascii oo) (sheet_rows d) s).
 Proof.
-  intros Hnd [Hne [Hsup [Hlow [Hhne [Hhs [Hhnd Hg]]]]]] HI. unfold Inv in *. unfold sheet_rows. cbn [fold_left].
+  intros Hnd [Hne [Hsup [Hlow [Hstr [Hhne [Hhs [Hhnd Hg]]]]]]] [HI He]. unfold Inv in *. unfold sheet_rows. cbn [fold_left].
   (* keys of the book so far *)
   assert (Hkeys : keys (bk s) = all_keys W1) by (rewrite HI; unfold all_keys; cbn [keys map fst]; rewrite <- keys_entries; reflexivity).
   assert (Hfresh : ~ In (sname d) (all_keys W1) /\ ~ In (header_key (sname d)) (all_keys W1 ++ [sname d])).
@@ -99,34 +122,37 @@ Proof.
       apply NoDup_remove_2 in Hnd. rewrite app_nil_r in Hnd. exact Hnd. }
   destruct Hfresh as [Hf1 Hf2].
   (* the sheet-name row *)
-  assert (E1 : step lower_ascii s [sname d] =
-     {| bk := ((k_sheet_names, VNames (map sname W1 ++ [sname d])) :: flat_map entries W1) ++ [(sname d, VRows [])]; sheet := Some (sname d); headers := None |}).
-  { unfold step. cbn [first_col]. rewrite Hne. rewrite (bmem_new (bk s) (sname d)) by (rewrite Hkeys; exact Hf1). cbn [andb negb].
-    rewrite HI. cbn [bget]. rewrite seqb_refl. cbn [bput]. rewrite seqb_refl. rewrite Hlow, Hsup.
+  assert (E1 : step lower_ascii oo s [sname d] =
+     {| bk := ((k_sheet_names, VNames (map sname W1 ++ [sname d])) :: flat_map entries W1) ++ [(sname d, VRows [])]; sheet := Some (sname d); headers := None; err := None |}).
+  { unfold step. rewrite He. cbn [first_col]. rewrite Hstr. rewrite Hne. rewrite (bmem_new (bk s) (sname d)) by (rewrite Hkeys; exact Hf1). cbn [andb negb].
+    rewrite HI. cbn [bget]. rewrite seqb_refl. cbn [bput]. rewrite seqb_refl. rewrite Hlow, Hsup. cbn [negb andb].
+    rewrite Hsup.
     rewrite bput_new; [reflexivity|]. cbn [keys map fst]. rewrite keys_entries. exact Hf1. }
   rewrite E1.
   (* the header row *)
   set (b1 := ((k_sheet_names, VNames (map sname W1 ++ [sname d])) :: flat_map entries W1) ++ [(sname d, VRows [])]).
-  assert (E2 : step lower_ascii {| bk := b1; sheet := Some (sname d); headers := None |} ([] :: shead d) =
-     {| bk := b1 ++ [(header_key (sname d), VHeader (shead d))]; sheet := Some (sname d); headers := Some (shead d) |}).
-  { unfold step. assert (Hst : Forall stripped (shead d)) by (eapply Forall_impl; [|exact Hhs]; intros h [_ Hh]; exact Hh).
+  assert (E2 : step lower_ascii oo {| bk := b1; sheet := Some (sname d); headers := None; err := None |} ([] :: shead d) =
+     {| bk := b1 ++ [(header_key (sname d), VHeader (shead d))]; sheet := Some (sname d); headers := Some (map Some (shead d)); err := None |}).
+  { unfold step. cbn [err]. assert (Hst : Forall stripped (shead d)) by (eapply Forall_impl; [|exact Hhs]; intros h [_ [Hh _]]; exact Hh).
     rewrite (first_col_data _ Hhne Hst).
     assert (Hc : has_content (shead d) = true).
     { destruct (shead d) as [|h r]; [congruence|]. inversion Hhs as [|? ? [Hh _] _]; subst. unfold has_content. cbn [existsb]. rewrite Hh. reflexivity. }
-    rewrite Hc. cbn [sheet headers bk]. rewrite Hsup. rewrite (dedup_nodup _ [] Hhnd) by (intros x _ []).
+    rewrite Hc. cbn [sheet headers bk]. rewrite Hsup.
+    rewrite headers_good; [|eapply Forall_impl; [|exact Hhs]; intros h [H1 [H2 H3]]; split; [exact H1|unfold clean_header; rewrite H2; exact H3]|exact Hhnd].
+    rewrite somes_map_Some. rewrite (dedup_nodup _ [] Hhnd) by (intros x _ []).
     rewrite bput_new; [reflexivity|]. unfold b1. unfold keys. rewrite map_app. cbn [map fst]. fold (keys (flat_map entries W1)). rewrite keys_entries.
     change (k_sheet_names :: flat_map (fun d0 => [sname d0; header_key (sname d0)]) W1) with (all_keys W1). exact Hf2. }
   cbn [fold_left]. rewrite E2.
   (* the data rows *)
-  destruct (fold_data (sgrid d) {| bk := b1 ++ [(header_key (sname d), VHeader (shead d))]; sheet := Some (sname d); headers := Some (shead d) |}
+  destruct (fold_data oo (sgrid d) {| bk := b1 ++ [(header_key (sname d), VHeader (shead d))]; sheet := Some (sname d); headers := Some (map Some (shead d)); err := None |}
              (sname d) (shead d) ((k_sheet_names, VNames (map sname W1 ++ [sname d])) :: flat_map entries W1) [] [(header_key (sname d), VHeader (shead d))]
-             Hg eq_refl eq_refl Hsup) as [Hb _].
+             Hg eq_refl eq_refl eq_refl Hsup) as [Hb [_ [_ He']]].
   - unfold b1. rewrite <- app_assoc. reflexivity.
   - cbn [keys map fst]. rewrite keys_entries. exact Hf1.
-  - cbn zeta in Hb. rewrite Hb. rewrite map_app, flat_map_app. cbn [map flat_map entries app]. unfold raw_rows. reflexivity.
+  - cbn zeta in Hb, He'. split; [|exact He']. rewrite Hb. rewrite map_app, flat_map_app. cbn [map flat_map entries app]. unfold raw_rows. reflexivity.
 Qed.
-Theorem csv_rows_round_trip : forall W2 W1 s, NoDup (all_keys (W1 ++ W2)) -> Forall sheet_ok W2 -> Inv W1 s ->
-  bk (fold_left (step lower_ascii) (flat_map sheet_rows W2) s) = (k_sheet_names, VNames (map sname (W1 ++ W2))) :: flat_map entries (W1 ++ W2).
+Theorem csv_rows_round_trip oo : forall W2 W1 s, NoDup (all_keys (W1 ++ W2)) -> Forall sheet_ok W2 -> Inv W1 s ->
+  Inv (W1 ++ W2) (fold_left (step lower_ascii oo) (flat_map sheet_rows W2) s).
 Proof.
   induction W2 as [|d W2 IH]; intros W1 s Hnd Hok HI.
   - rewrite app_nil_r. exact HI.
@@ -140,10 +166,12 @@ Qed.
 Lemma trim_entries W : map (fun e => (fst e, trim_val (snd e))) (flat_map entries W) = flat_map final_entries W.
 Proof. induction W as [|d W IH]; [reflexivity|]. cbn [flat_map entries final_entries app map fst snd trim_val]. rewrite IH. reflexivity. Qed.
 Theorem csv_book_round_trip W : NoDup (all_keys W) -> Forall sheet_ok W ->
-  csv_book lower_ascii (flat_map sheet_rows W) = (k_sheet_names, VNames (map sname W)) :: flat_map final_entries W.
+  csv_book lower_ascii (flat_map sheet_rows W) = Ok ((k_sheet_names, VNames (map sname W)) :: flat_map final_entries W).
 Proof.
-  intros Hnd Hok. unfold csv_book. rewrite (csv_rows_round_trip W [] _ Hnd Hok) by reflexivity.
-  cbn [app map fst snd trim_val]. rewrite trim_entries. reflexivity.
+  intros Hnd Hok. unfold csv_book.
+  destruct (csv_rows_round_trip (only_one_sheet (flat_map sheet_rows W)) W [] init_st Hnd Hok) as [Hb He]; [split; reflexivity|].
+  cbn [app] in Hb. rewrite He, Hb.
+  cbn [map fst snd trim_val]. rewrite trim_entries. reflexivity.
 Qed.
 (* what the trimming does: nothing to a sheet that does not end in a blank row; blank rows inside the data stay where they are *)
 Lemma trim_rows_snoc l r : r <> [] -> trim_rows (l ++ [r]) = l ++ [r].
@@ -158,7 +186,7 @@ Proof.
   unfold sheet_rows. constructor; [discriminate|]. constructor; [discriminate|]. apply Forall_map. apply Forall_forall. intros cs _. discriminate.
 Qed.
 Theorem csv_text_round_trip W : NoDup (all_keys W) -> Forall sheet_ok W ->
-  option_map (csv_book lower_ascii) (parse_csv (write_csv (flat_map sheet_rows W))) = Some ((k_sheet_names, VNames (map sname W)) :: flat_map final_entries W).
+  option_map (csv_book lower_ascii) (parse_csv (write_csv (flat_map sheet_rows W))) = Some (Ok ((k_sheet_names, VNames (map sname W)) :: flat_map final_entries W)).
 Proof.
   intros Hnd Hok. rewrite (parse_write_csv _ (sheet_rows_nonempty W)). cbn [option_map]. f_equal. apply csv_book_round_trip; assumption.
 Qed.
@@ -173,3 +201,52 @@ Proof.
   - unfold all_keys, ex_csv_workbook. cbn [flat_map sname header_key app]. repeat constructor; cbn; intuition discriminate.
   - repeat constructor; try discriminate; try reflexivity; cbn; intuition discriminate.
 Qed.
+
+(* ---- errors of the content, and the workbook of one sheet ---- *)
+(* once a header row has been refused nothing that follows changes the outcome *)
+Lemma step_err_sticky lower oo s row m : err s = Some m -> step lower oo s row = s.
+Proof. intro H. unfold step. rewrite H. reflexivity. Qed.
+Lemma fold_err_sticky lower oo rows : forall s m, err s = Some m -> fold_left (step lower oo) rows s = s.
+Proof. induction rows as [|r rows IH]; intros s m H; [reflexivity|]. cbn [fold_left]. rewrite (step_err_sticky lower oo s r m H). exact (IH s m H). Qed.
+Theorem csv_refused_header_refuses_workbook lower pre post m :
+  err (fold_left (step lower (only_one_sheet (pre ++ post))) pre init_st) = Some m -> csv_book lower (pre ++ post) = PyxErr m.
+Proof.
+  intro H. unfold csv_book. rewrite fold_left_app. rewrite (fold_err_sticky lower _ post _ m H). rewrite H. reflexivity.
+Qed.
+(* the header row of a supported sheet: what get_excel_column_headers refuses (a repeated header) is refused here *)
+Theorem csv_header_row_refused lower oo s sn cs m : err s = None -> sheet s = Some sn -> headers s = None -> mem sn SUPPORTED_SHEET_NAMES = true ->
+  cs <> [] -> Forall stripped cs -> has_content cs = true ->
+  get_excel_column_headers py_strip (N.to_nat MAX_ADJACENT_EMPTY_COLUMNS) (map opt_cell cs) = PyxErr m ->
+  err (step lower oo s ([] :: cs)) = Some m.
+Proof.
+  intros He Hs Hh Hsup Hne Hst Hc Hg. unfold step. rewrite He, (first_col_data cs Hne Hst), Hc, Hs, Hsup, Hh, Hg. reflexivity.
+Qed.
+(* the name row of the only sheet of a workbook: whatever the name, the rows that follow are the survey's; the name is still noted *)
+Theorem csv_only_sheet_is_survey lower s n : err s = None -> nonempty (py_strip n) = true -> bmem (py_strip n) (bk s) = false ->
+  mem (lower (py_strip n)) SUPPORTED_SHEET_NAMES = false ->
+  let s' := step lower true s [n] in
+  sheet s' = Some s_survey /\ headers s' = None /\ err s' = None /\ bget s_survey (bk s') = Some (VRows []).
+Proof.
+  intros He Hn Hb Hsup. unfold step. rewrite He. cbn [first_col]. rewrite Hn, Hb, Hsup. cbn [negb andb].
+  change (mem s_survey SUPPORTED_SHEET_NAMES) with true. cbn iota. cbn [sheet headers err bk]. repeat split.
+  generalize (bput k_sheet_names (VNames (match bget k_sheet_names (bk s) with Some (VNames l) => l | _ => [] end ++ [py_strip n])) (bk s)).
+  intro b. induction b as [|[k v] r IH]; cbn [bput bget]; [rewrite seqb_refl; reflexivity|].
+  destruct (seqb s_survey k) eqn:E; cbn [bget]; rewrite ?seqb_refl, ?E; [reflexivity|exact IH].
+Qed.
+(* and with another sheet beside it an unknown sheet is only noted *)
+Theorem csv_unknown_sheet_is_skipped lower s n : err s = None -> nonempty (py_strip n) = true -> bmem (py_strip n) (bk s) = false ->
+  mem (lower (py_strip n)) SUPPORTED_SHEET_NAMES = false ->
+  let s' := step lower false s [n] in sheet s' = Some (lower (py_strip n)) /\ err s' = None.
+Proof.
+  intros He Hn Hb Hsup. unfold step. rewrite He. cbn [first_col]. rewrite Hn, Hb, Hsup. cbn [negb andb]. rewrite Hsup. split; reflexivity.
+Qed.
+Example csv_examples :
+  (* Sheet1 alone: its rows are the survey; a repeated header is refused; an empty header cell is skipped with its column *)
+  csv_book lower_ascii [[[83;104;101;101;116;49]]; [[]; [116;121;112;101]; [110;97;109;101]]; [[]; [116;101;120;116]; [113]]]
+    = Ok [(k_sheet_names, VNames [[83;104;101;101;116;49]]); (s_survey, VRows [[([116;121;112;101], [116;101;120;116]); ([110;97;109;101], [113])]]);
+          (header_key s_survey, VHeader [[116;121;112;101]; [110;97;109;101]])]
+  /\ csv_book lower_ascii [[s_survey]; [[]; [116;121;112;101]; [110;97;109;101]; [110;97;109;101]]; [[]; [116;101;120;116]; [113]; [114]]] = PyxErr [110;97;109;101]
+  /\ csv_book lower_ascii [[s_survey]; [[]; [116;121;112;101]; []; [110;97;109;101]]; [[]; [116;101;120;116]; [120]; [113]]]
+    = Ok [(k_sheet_names, VNames [s_survey]); (s_survey, VRows [[([116;121;112;101], [116;101;120;116]); ([110;97;109;101], [113])]]);
+          (header_key s_survey, VHeader [[116;121;112;101]; [110;97;109;101]])].
+Proof. vm_compute. repeat split; reflexivity. Qed.
